@@ -247,6 +247,7 @@ func main() {
 	pairs := flag.String("pairs", "", "file with 'id1 id2' probe pairs to answer MayAlias for")
 	cfgFile := flag.String("config", "", "optional argot config file (e.g. pointer no-effect functions)")
 	mu := flag.String("mu", "", "write the muSSA translation of the user functions to this file")
+	cgOnly := flag.Bool("cgonly", false, "also run the call-graph-only entry point (dataflow.PointerAnalysis.ComputeCallgraph, no queries) and print CGOFN/CGOEDGE lines")
 	cgOut := flag.String("cg", "", "write the whole call graph (node ids, edges, entry points, impl reachable set) to this file")
 	rewrites := flag.Bool("rewrites", true, "apply the source rewrites the argot CLI applies")
 	flag.StringVar(&repoDir, "repo", "/repo", "checkout of ar-go-tools the harness was built against (source of the intrinsics table)")
@@ -439,6 +440,60 @@ func main() {
 			fmt.Fprintf(w, "MA %d %d %s\n", a, b, ans)
 		}
 		f.Close()
+	}
+	if *cgOnly {
+		// the entry point used by `argot render` / `compare`: pointer analysis without any query
+		cg2, err := dataflow.PointerAnalysis.ComputeCallgraph(prog)
+		if err != nil || cg2 == nil {
+			fmt.Fprintf(os.Stderr, "call-graph-only analysis: %v\n", err)
+			os.Exit(3)
+		}
+		reach2 := dataflow.CallGraphReachable(cg2, false, false)
+		listed2 := map[*ssa.Function]bool{}
+		var order2 []*ssa.Function
+		for _, f := range user {
+			listed2[f] = true
+			order2 = append(order2, f)
+		}
+		var lines []string
+		for i := 0; i < len(order2); i++ {
+			f := order2[i]
+			n := cg2.Nodes[f]
+			if n == nil {
+				continue
+			}
+			for _, e := range n.Out {
+				site := "-"
+				if e.Site != nil {
+					site = instrKey(e.Site)
+				}
+				lines = append(lines, fmt.Sprintf("CGOEDGE %s %s %s", fnKey(f), site, fnKey(e.Callee.Func)))
+				if g := e.Callee.Func; (g.Synthetic != "" || isUserFn(g, mainPkg)) && !listed2[g] {
+					listed2[g] = true
+					order2 = append(order2, g)
+				}
+			}
+		}
+		for _, f := range order2 {
+			kind := "user"
+			if !isUserFn(f, mainPkg) {
+				kind = "synth"
+			}
+			tag := m.tagOf[f]
+			if tag == "" {
+				tag = "-"
+			}
+			r := 0
+			if reach2[f] {
+				r = 1
+			}
+			fmt.Fprintf(w, "CGOFN %s %s %s %d\n", fnKey(f), kind, tag, r)
+		}
+		sort.Strings(lines)
+		for _, l := range lines {
+			fmt.Fprintln(w, l)
+		}
+		fmt.Fprintf(os.Stderr, "c11dump: cgonly %.1fs\n", time.Since(t0).Seconds())
 	}
 	dumpNoEffect(w, prog)
 	if *cgOut != "" {
